@@ -115,10 +115,11 @@ fn store_adds(r: &mut StdRng, apex: &str, class_v: u16) -> Vec<Add> {
             let mut v = vec![0, r.gen_range(0..3)];
             v.extend(w(&target));
             (15, v)
-        } else if k < 95 {
+        } else if k < 92 {
             (16, vec![1, *[b'x', b'X', b'y'].choose(r).unwrap()])
         } else {
-            (65280, vec![r.gen_range(0..2)])
+            // unknown type; often with EMPTY RDATA (a two-octet entry in the RDATA set)
+            (65280, if r.gen_bool(0.6) { vec![] } else { vec![r.gen_range(0..2)] })
         };
         let cls: u16 = if r.gen_bool(0.06) { *[2u16, 255, 254].choose(r).unwrap() } else { class_v };
         let ttl: u32 = *[60u32, 60, 60, 300, 0].choose(r).unwrap();
@@ -189,7 +190,8 @@ fn store(r: &mut StdRng, n: usize, out: &mut Out) {
 
 /// Small-alphabet zone as in the property text: '*' labels, NS at various depths, CNAMEs, empty non-terminals.
 fn small_zone(r: &mut StdRng, apex: &str, class: u16) -> Vec<Add> {
-    let labels = ["a", "b", "*", "c"];
+    // a label of 16+ octets (block-wise hashing / comparison code paths) besides the short ones
+    let labels = ["a", "b", "*", "c", "a", "b", "*", "c", "a-label-of-more-than-sixteen-octets"];
     let mut adds = Vec::new();
     let n = r.gen_range(0..40);
     for _ in 0..n {
@@ -227,7 +229,7 @@ fn small_zone(r: &mut StdRng, apex: &str, class: u16) -> Vec<Add> {
 }
 
 fn nearby(names: &[String], apex: &str) -> Vec<String> {
-    let labels = ["a", "b", "*", "c", "zz"];
+    let labels = ["a", "b", "*", "c", "zz", "a-label-of-more-than-sixteen-octets"];
     let mut q: Vec<String> = Vec::new();
     let mut base: Vec<String> = names.to_vec();
     base.push(apex.to_string());
